@@ -50,6 +50,12 @@ pub struct RunOut {
     pub panic: Option<String>,
 }
 
+/// C15 through the generated programs: every line the C09 / C12 enumerations execute is also looked at for
+/// output that no flush follows (counters: lines checked, lines with output, violations)
+pub static FLUSH_LINES: std::sync::atomic::AtomicU64 = std::sync::atomic::AtomicU64::new(0);
+pub static FLUSH_UNFLUSHED: std::sync::Mutex<Vec<(String, String, String)>> = std::sync::Mutex::new(Vec::new());
+pub static FLUSH_UNFLUSHED_COUNT: std::sync::atomic::AtomicU64 = std::sync::atomic::AtomicU64::new(0);
+
 pub fn run_line(prog: &Prog, base: &Sess, line: &str) -> RunOut {
     let mut s = base.clone();
     let mut bytes = line.as_bytes().to_vec();
@@ -59,8 +65,19 @@ pub fn run_line(prog: &Prog, base: &Sess, line: &str) -> RunOut {
         let cli = &mut s.cli;
         std::panic::catch_unwind(std::panic::AssertUnwindSafe(|| (prog.run)(cli, &bytes, &mut log)))
     };
-    let out = sink_bytes(&s.cli.__verif_writer_mut().take());
+    let evs = s.cli.__verif_writer_mut().take();
+    let out = sink_bytes(&evs);
     let out = String::from_utf8_lossy(&out).into_owned();
+    if let Ok(Ok(())) = &r {
+        FLUSH_LINES.fetch_add(1, std::sync::atomic::Ordering::Relaxed);
+        if !crate::base::all_flushed(&evs) {
+            let n = FLUSH_UNFLUSHED_COUNT.fetch_add(1, std::sync::atomic::Ordering::Relaxed);
+            if n < 200 {
+                let tail: Vec<String> = evs.iter().rev().take(4).rev().map(|e| format!("{:?}", e)).collect();
+                FLUSH_UNFLUSHED.lock().unwrap().push((prog.id.to_string(), line.to_string(), tail.join(" ")));
+            }
+        }
+    }
     match r {
         Ok(r) => RunOut { log, out, ok: r.is_ok(), panic: None },
         Err(_) => RunOut { log, out, ok: false, panic: Some(LAST_PANIC.with(|p| p.borrow_mut().take()).unwrap_or_default()) },
@@ -858,4 +875,33 @@ pub fn c11(progs: &[Prog], decls: &Decls, max_sym: u32, extra_cb: usize) -> Enum
     }
     out.wall_s = t0.elapsed().as_secs_f64();
     out
+}
+
+
+/// C15 over the generated programs: runs the C09 and C12 enumerations (their own verdicts are dropped here,
+/// they belong to those checks) and reports every executed line whose output is not followed by a flush
+pub fn c15(progs: &[Prog], decls: &Decls, max_tokens: usize) -> EnumOutcome {
+    let t0 = Instant::now();
+    let a = c09(progs, decls, max_tokens);
+    let b = c12(progs, decls, max_tokens.saturating_sub(1).max(2));
+    let mut o = EnumOutcome::default();
+    o.name = format!("flush discipline over the generated programs: every line of the derived-parser and help enumerations ({} + {} cases)", a.evaluations, b.evaluations);
+    o.rule = "every line typed into a real Cli by the C09 / C12 enumerations (values, every kind of parse error, help listings, command and nested help, unknown commands); when all calls returned Ok no written byte may follow the last flush; non-trivial = every executed line".into();
+    o.evaluations = FLUSH_LINES.load(std::sync::atomic::Ordering::Relaxed);
+    o.distinct_nontrivial = o.evaluations;
+    o.stats.add("lines_checked", o.evaluations);
+    let v = FLUSH_UNFLUSHED.lock().unwrap().clone();
+    let total = FLUSH_UNFLUSHED_COUNT.load(std::sync::atomic::Ordering::Relaxed);
+    let mut sorted = v;
+    sorted.sort_by_key(|(p, l, _)| (l.len(), p.clone(), l.clone()));
+    for (p, l, tail) in sorted.into_iter().take(3) {
+        o.viol("C15/unflushed-output", format!("{} line {:?}: the last sink events are {}", p, l, tail), vec![p, l]);
+    }
+    if total > 0 {
+        o.viol_counts.insert("C15/unflushed-output".into(), total);
+    }
+    o.exhaustive = true;
+    o.samples = vec![json!({"program": "PP0", "line": "pr0 \"300\""})];
+    o.wall_s = t0.elapsed().as_secs_f64();
+    o
 }
